@@ -772,6 +772,7 @@ class MultiStream(Stream):
                 data[phase_index, IDs_index] = original_data[phase_index, IDs_index]
                 if remove:
                     excluded_data = other_data[phase_index, IDs_index]
+                    if hasattr(excluded_data, 'copy'): excluded_data = excluded_data.copy() # May be `other_data` itself
                     other_data[:] = 0.
                     other_data[phase_index, IDs_index] = excluded_data
             else:
@@ -782,6 +783,7 @@ class MultiStream(Stream):
                     excluded_data = 0. # Nothing of `other` is in an excluded phase it does not have
                     if phase is ... or phase_index == other_phase_index:
                         excluded_data = other_data[IDs_index]
+                        if hasattr(excluded_data, 'copy'): excluded_data = excluded_data.copy() # May be `other_data` itself
                     other_data[:] = 0.
                     other_data[IDs_index] = excluded_data
         elif multiphase:
